@@ -124,7 +124,9 @@ def create_probability_distribution(
                         merged = merge_mps_tensors(tensor_left, tensor_right)
                         # apply the 2-site jump operator
                         merged = oe.contract("ab, bcd->acd", jump_op, merged)
-                        dp_m = dt * gamma * jumped_state.norm(site)
+                        # weight of the jumped state: the centre is at `site`, so the norm of the merged
+                        # two-site tensor is the norm of the state
+                        dp_m = dt * gamma * np.vdot(merged, merged)
                         # split the tensor (always contract singular values right for probabilities)
                         tensor_left_new, tensor_right_new = split_mps_tensor(
                             merged,
